@@ -6,10 +6,11 @@ P=$1
 git checkout -- evidence 2>/dev/null || true
 git merge agent-$P -m "Merge agent-$P" >/dev/null 2>&1 || true
 for f in $(git diff --name-only --diff-filter=U | grep "^evidence/"); do git checkout --theirs $f; git add $f; done
-git checkout --ours MANIFEST.json known_findings.json 2>/dev/null || true
+git checkout --ours MANIFEST.json known_findings.json DESIGN.md 2>/dev/null || true
 git rm -q --cached coq/_CoqProject 2>/dev/null || true
 for f in $(git diff --name-only --diff-filter=U); do echo "UNRESOLVED: $f"; done
 python3 tools/mkmanifest.py
+python3 tools/mkdesign.py >/dev/null
 git add -A
 git commit -qm "Merge agent-$P" || true
 git log --oneline | head -2
